@@ -822,6 +822,8 @@ static size_t safec_etoa(out_fct_type out, const char *funcname, char *buffer,
         const size_t start_idx = idx;
         idx = safec_ftoa(out, funcname, buffer, idx, maxlen,
                          negative ? -value : value, prec, fwidth, flags);
+        if ((long)idx < 0) // already reported
+            return idx;
 
         // output the exponent part
         if (minwidth) {
@@ -835,10 +837,12 @@ static size_t safec_etoa(out_fct_type out, const char *funcname, char *buffer,
                 safec_ntoa_long(out, funcname, buffer, idx, maxlen,
                                 (expval < 0) ? -expval : expval, expval < 0, 10,
                                 0, minwidth - 1, FLAGS_ZEROPAD | FLAGS_PLUS);
+            if ((long)idx < 0) // already reported
+                return idx;
             // might need to right-pad spaces
             if (flags & FLAGS_LEFT) {
                 while (idx - start_idx < width) {
-                    out(' ', buffer, idx++, maxlen);
+                    rc = out(' ', buffer, idx++, maxlen);
                     if (unlikely(rc < 0))
                         return rc;
                 }
